@@ -35,6 +35,7 @@ func (s *state) switchChain(tip *chaingen.Node, ann []*chaingen.Node, style stri
 	}
 	ok := l2.WaitFor(45*time.Second, func() bool { return w.SyncedTo(tip) })
 	if !ok && style == "inv" {
+		s.res.Count("reorg_family/inv_not_followed_up(connecting_headers_sent)", 1)
 		// An inv is only followed up when it arrives at the right moment; the
 		// connecting headers are the announcement every peer may also send.
 		for _, p := range w.Peers {
